@@ -26,13 +26,19 @@ structure MsgDom (fac : Factory) (m : Message) : Prop where
   wfd : ∀ d ∈ m.devFields, wf d.value = true
   plain : plainKeys m = true
   agree : ∀ f ∈ m.fields, f.base.isSome = true ∧ agreeField fac m.num f = true
+  fnums : ∀ f ∈ m.fields, ∀ b, f.base = some b → b.num < 256
+  dnums : ∀ d ∈ m.devFields, d.num < 256 ∧ d.devIdx < 256
 
 theorem inDomain_unpack (fac : Factory) (kept : List Message) (h : inDomain fac kept = true) :
     facOKB fac = true ∧ ∀ m ∈ kept, MsgDom fac m := by
-  simp only [inDomain, Bool.and_eq_true, List.all_eq_true, decide_eq_true_eq, wfMsg] at h
+  simp only [inDomain, Bool.and_eq_true, List.all_eq_true, decide_eq_true_eq, wfMsg, byteNums] at h
   refine ⟨h.1, fun m hm => ?_⟩
-  obtain ⟨⟨⟨h1, h2, h3⟩, h4⟩, h5⟩ := h.2 m hm
-  exact ⟨h1, h2, h3, h4, h5⟩
+  obtain ⟨⟨⟨⟨h1, h2, h3⟩, h4⟩, h5⟩, h6, h7⟩ := h.2 m hm
+  refine ⟨h1, h2, h3, h4, h5, ?_, h7⟩
+  intro f hf b hb
+  have := h6 f hf
+  rw [hb] at this
+  simpa using this
 
 /-! ### the wire form of validated fields -/
 
